@@ -111,7 +111,7 @@ pub fn module_for(base: &Fields, id: u64) -> Module {
     Module::simple(&format!("C16A{id}"), defs)
 }
 
-const RULE: &str = "part a (front end, no rustc): for every generated multiset of 2..5 components (explicit tags of the four classes, untagged builtin types, untagged references to a tagged definition / an untagged definition / an untagged CHOICE / a SEQUENCE; with and without extension marker) ALL permutations of the root components are printed as SET (and every 7th as SEQUENCE), pushed through proc_macro::asn_to_rust -> syn -> parse_asn_definition -> expand, and the order of fields in write_seq and read_seq and the TAG constants are read from the expansion text. Oracle: own implementation of X.680 8.6 (UNIVERSAL < APPLICATION < context < PRIVATE, then number), root before additions, automatic tags [0]..[n-1] iff no component of the list is tagged, referenced type's tag for untagged references; SEQUENCE keeps textual order; read and write order identical. Non-trivial: canonical order != textual order; distinct = definition text.";
+const RULE: &str = "part a (front end, no rustc): for every pair of untagged candidates with different outermost tags (builtin types, inline SEQUENCE / SEQUENCE OF / SET / SET OF / ENUMERATED, references) next to one tagged component, and for every generated multiset of 2..5 components (explicit tags of the four classes, untagged builtin and inline constructed types, OPTIONAL / DEFAULT, untagged references to a tagged definition / an untagged definition / an untagged CHOICE / a SEQUENCE; with and without extension marker) ALL permutations of the root components are printed as SET (and every 7th as SEQUENCE), pushed through proc_macro::asn_to_rust -> syn -> parse_asn_definition -> expand, and the order of fields in write_seq and read_seq and the TAG constants are read from the expansion text. Oracle: own implementation of X.680 8.6 (UNIVERSAL < APPLICATION < context < PRIVATE, then number), root before additions, automatic tags [0]..[n-1] iff no component of the list is tagged, referenced type's tag for untagged references; SEQUENCE keeps textual order; read and write order identical. Non-trivial: canonical order != textual order; distinct = definition text.";
 
 pub fn run(ctx: Ctx) -> i32 {
     let report = Report::new(ctx.clone(), RULE);
@@ -135,7 +135,9 @@ pub fn run(ctx: Ctx) -> i32 {
         return report.finish();
     }
     let tier = ctx.tier;
-    let n_bases = tier.pick(160u64, 4000u64);
+    let pairs = vcore::zoo::c16_pair_family();
+    let n_random = tier.pick(160u64, 4000u64);
+    let n_bases = n_random + pairs.len() as u64;
     let bad = run_in_workers(&report, 16, std::time::Duration::from_secs(tier.pick(600, 7200)), &|report: &Report| {
         report.ctx.my_shards(n_bases).par_iter().for_each(|&b| {
             if report.too_many_violations() {
@@ -148,7 +150,8 @@ pub fn run(ctx: Ctx) -> i32 {
                 state ^= state << 17;
                 state >> 11
             };
-            let base = c16_fields(&mut next);
+            // the random multisets first, then the systematic pair family
+            let base = if b < n_random { c16_fields(&mut next) } else { pairs[(b - n_random) as usize].clone() };
             let m = module_for(&base, b);
             let mut local = Local::default();
             match check_module(&m) {
